@@ -345,8 +345,15 @@ def run(ctx):
     t0 = time.time()
     cc = cat(_CHAN_CAT)
     os.environ["WS_CATALOG"] = cc.write(os.path.join(ctx.scratch, "catalog_chan.ndjson"))
-    paths = ctx.gen_paths("ws", "Gen_WsChannel", "Gen_WsChannel.cfg", overrides=ctx.pick({"L": 3, "MaxSend": 2}, {"L": 4, "MaxSend": 2}))
+    # quick: 3 message classes, L = 3; thorough: all 12 classes at L = 3 (2 variants each) and the 3 classes at L = 4
+    paths = ctx.gen_paths("ws", "Gen_WsChannel", "Gen_WsChannel.cfg", overrides={"L": 3, "MaxSend": 2})
     ctx.replay(expand_chan(paths, ctx.seed, ctx.pick(1, 2)), chan_replayer, label="s2c")
+    if not ctx.quick:
+        _CHAN_CAT = "chan_quick"
+        os.environ["WS_CATALOG"] = cat(_CHAN_CAT).write(os.path.join(ctx.scratch, "catalog_chan4.ndjson"))
+        paths = ctx.gen_paths("ws", "Gen_WsChannel", "Gen_WsChannel.cfg", overrides={"L": 4, "MaxSend": 2})
+        ctx.replay(expand_chan(paths, ctx.seed, 2), chan_replayer, label="s2c")
+        _CHAN_CAT = "chan"
     ctx._phase("s2c-chan", t0)
     ctx.cov["exhaustive"] = True
     # 5. code -> spec: random sessions on the real pair, wire frames and deliveries judged by TLC
@@ -360,7 +367,7 @@ def run(ctx):
     ctx.cov["rule"] = ("codec: header table (fin x rsv x opcode x mask x 12 boundary lengths); receiver: every permitted frame "
                        "sequence of length <= 3 over the boundary catalogue (%s) in hashed role/deflate/segmentation variants; "
                        "pair: every Send/Transfer sequence of length <= %d over %d message classes x pieces {1,3} x gap control "
-                       "{none, ping} x segmentation, deflate grid of 7 parameter sets + 3 offers the server must decline" % (_RECV_CAT, ctx.pick(3, 4), len(cc.by_id)))
+                       "{none, ping} x segmentation, deflate grid of 7 parameter sets + 3 offers the server must decline" % (_RECV_CAT, 3, len(cc.by_id)))
 
 
 def replay(ctx, rec):
